@@ -137,6 +137,7 @@ inline std::string tmpdir() {
 
 static const double A1 = 6378388.0, F1 = 1 / 297.0;        // International 1924 (constructed objects)
 static const double A2 = 6.4e6, F2 = -1 / 150.0;           // prolate
+static const double A3 = 6.4e6, F3 = 0.5;                  // very eccentric: GeodesicExact then uses a long DST (N > 16) for the area
 
 struct Harm {   // synthetic coefficient sets (owned here: SphericalHarmonic keeps iterators into them)
   std::vector<double> C, S, C1, S1, C2, S2;
@@ -156,7 +157,7 @@ struct Objs {
   std::string dir;
   Geodesic gw; Rhumb rw; Geocentric gcw;   // own WGS84 objects (not the singletons)
   Geodesic g1, g1x;            // series, exact=true
-  GeodesicExact ge1, ge2;      // oblate, prolate
+  GeodesicExact ge1, ge2, ge3; // oblate, prolate, very eccentric (f = 0.5)
   GeodesicLine l1, lw; GeodesicLineExact le1;
   Rhumb r1, r1x; RhumbLine rl1, rlw;
   TransverseMercator tm1; TransverseMercatorExact tme1, tme1x;
@@ -177,7 +178,7 @@ struct Objs {
   double dstF[16];
   Objs()
       : dir(tmpdir()), gw(Constants::WGS84_a(), Constants::WGS84_f()), rw(Constants::WGS84_a(), Constants::WGS84_f()), gcw(Constants::WGS84_a(), Constants::WGS84_f()),
-        g1(A1, F1), g1x(A1, F1, true), ge1(A1, F1), ge2(A2, F2),
+        g1(A1, F1), g1x(A1, F1, true), ge1(A1, F1), ge2(A2, F2), ge3(A3, F3),
         l1(g1, 33.5, -71.25, 41.75), lw(gw, -12.25, 100.5, -130.0), le1(ge1, 33.5, -71.25, 41.75),
         r1(A1, F1, false), r1x(A1, F1, true), rl1(r1.Line(33.5, -71.25, 41.75)), rlw(rw.Line(-12.25, 100.5, -130.0)),
         tm1(A1, F1, 0.9996), tme1(A1, F1, 0.9996, false), tme1x(A1, F1, 0.9996, true), ps1(A1, F1, 0.994),
